@@ -200,11 +200,21 @@ def harness_enum(component, args):
     return split_scripts(out)
 
 
+BUDGET_NOTES = []
+
+
 def harness_run(component, scripts, timeout=900):
     """Execute scripts on the real implementation. Returns (trace_scripts, crashed_script_or_None, log)."""
     inp = join_scripts(scripts).encode()
     env = goenv()
+    # quick tier: a changed library can make every script run into a time-out; the harness stops starting scripts after the
+    # budget and what it executed is analysed (on the unchanged tree a quick run takes 10-40 s)
+    env.setdefault("VERIF_BUDGET_S", "150" if os.environ.get("VERIF_TIER", "quick") == "quick" else "7200")
     rc, out = run([HBIN, component, "run"], env=env, timeout=timeout, input_bytes=inp)
+    note = re.search(r"^#budget (.*)$", out, re.M)
+    if note:
+        BUDGET_NOTES.append("%s: %s" % (component, note.group(1)))
+        out = re.sub(r"^#budget .*$", "", out, flags=re.M)
     tr = split_scripts(out)
     if rc == 0:
         return tr, None, ""
